@@ -83,3 +83,34 @@ def run_batch(rep, tier):
     res["n_mismatch"] = len(res["mismatches"])
     res["mismatches"] = [x for x in res["mismatches"] if x is not None]
     return res
+
+
+def lexer_premise(rep, broken, want):
+    """Lexer half of a parser-level property (C01: no panic; C02: termination): the theorems live in
+    Properties/<pid>_lexer.v (built by proof_stage); this re-runs the quick lexer correspondence so that the model they
+    are stated over is tied to the CURRENT lexer.go.  `want` selects which implementation-side observations are failing
+    inputs of the calling property: "panic" and/or "runaway".  Returns True when a concrete failing input was reported."""
+    for what, detail in build_lexer_sides():
+        broken.append({"obligation": "build:" + what, "detail": detail})
+        if what == "go-harness":
+            return False
+    res = run_batch(rep, "quick")
+    found = False
+    if "panic" in want:
+        for (i, c, g) in res["panics"][:5]:
+            found = True
+            rep.violation("input", "lexer.Tokenize panics (Parse runs it on the caller's goroutine): %s" % g[:200], {"input_hex": c, "case": i}, input_hex=c)
+    if "runaway" in want:
+        for (i, c, clause) in [b for b in res["bad"] if "RUNAWAY" in b[2]][:5]:
+            found = True
+            rep.violation("input", "lexer.Tokenize does not reach EOF, so Parse does not terminate: %s" % clause[:200], {"input_hex": c, "case": i, "clause": clause}, input_hex=c)
+    for e in res["errors"]:
+        broken.append({"obligation": "correspondence-run:lexer", "detail": e})
+    if res["n_mismatch"]:
+        i, c, g, m = res["mismatches"][0]
+        broken.append({"obligation": "correspondence:lexer.Tokenize~LexerModel.tokenize",
+                       "detail": "%d of %d cases differ; first: input %s go=%s model=%s" % (res["n_mismatch"], res["cases"], c[:200], g, m),
+                       "input_hex": c})
+    rep.coverage["lexer_premise"] = {"cases": res["cases"], "tokens_compared": res["tokens"], "model_vs_impl_mismatches": res["n_mismatch"],
+                                     "impl_panics": len(res["panics"]), "impl_clause_failures": len(res["bad"]), "input_distribution": res["dist"]}
+    return found
